@@ -400,3 +400,26 @@ impl Drop for Scratch {
         }
     }
 }
+
+
+/// Signature of a process that died without a report: the sanitizer's own headline and the
+/// first frame inside /repo if there is one, else the panic site.
+pub fn death_signature(stderr: &str) -> String {
+    if let Some(i) = stderr.find("Sanitizer: ") {
+        let start = stderr[..i].rfind(|c: char| !c.is_ascii_alphabetic()).map(|x| x + 1).unwrap_or(0);
+        let tool = &stderr[start..i + "Sanitizer".len()];
+        let rest = &stderr[i + "Sanitizer: ".len()..];
+        let what: String = rest.chars().take_while(|c| c.is_ascii_alphabetic() || *c == '-' || *c == ' ').collect();
+        let what = what.trim().replace(' ', "-");
+        let frame = stderr
+            .match_indices("/repo/")
+            .next()
+            .map(|(j, _)| {
+                let f: String = stderr[j + 6..].chars().take_while(|c| !c.is_whitespace() && *c != ':').collect();
+                f
+            })
+            .unwrap_or_else(|| "unknown".to_string());
+        return format!("{tool}:{what}:{frame}");
+    }
+    panic_site(stderr)
+}
